@@ -592,3 +592,92 @@ pub fn response_family() -> Vec<Value> {
     let _ = EncodingOpts { xor_float_compression: true, mantissa: None, full_precision_cols: Default::default() };
     out
 }
+
+// ------------------------------------------------------------------------------------------------ XorFloat.tla conformance
+
+/// LSB-first bit reader over the coder's byte stream (bitbuffer, LittleEndian)
+struct Bits<'a> {
+    d: &'a [u8],
+    pos: usize,
+}
+impl<'a> Bits<'a> {
+    fn read(&mut self, n: usize) -> Option<u64> {
+        let mut v = 0u64;
+        for k in 0..n {
+            let i = self.pos + k;
+            if i / 8 >= self.d.len() {
+                return None;
+            }
+            v |= (((self.d[i / 8] >> (i % 8)) & 1) as u64) << k;
+        }
+        self.pos += n;
+        Some(v)
+    }
+}
+
+/// the token stream of an encoded message: (kind, leading zeros, significant bits, payload)
+pub fn xor_tokens(data: &[u8]) -> Option<Vec<(String, u64, u64, u64)>> {
+    let mut b = Bits { d: data, pos: 0 };
+    let n = b.read(64)? as usize;
+    if n == 0 {
+        return Some(vec![]);
+    }
+    b.read(64)?;
+    let mut out = vec![];
+    let mut sig = 0u64;
+    for _ in 1..n {
+        if b.read(1)? == 0 {
+            out.push(("same".to_string(), 0, 0, 0));
+        } else if b.read(1)? == 1 {
+            let lz = b.read(5)?;
+            sig = b.read(6)? + 1;
+            out.push(("new".to_string(), lz, sig, b.read(sig as usize)?));
+        } else {
+            out.push(("reuse".to_string(), 0, sig, b.read(sig as usize)?));
+        }
+    }
+    Some(out)
+}
+
+/// One sequence of MC_xor: 15-bit words (sign, 11 exponent bits, 3 mantissa bits) lifted by 49 bits are f64 values.
+/// Post-condition (violation if broken): decode(encode) keeps the unmasked bits. Conformance (reported, not a
+/// violation: a different lossless choice is allowed): the real token stream equals the specification's.
+pub fn xor_case(v: &Value, evals: &mut usize, token_mismatch: &mut usize) -> Vec<Value> {
+    let mut out = vec![];
+    let fs: Vec<f64> = v["fs"].as_array().unwrap().iter().map(|x| f64::from_bits(x.as_u64().unwrap() << 49)).collect();
+    for (mi, per_m) in v["enc"].as_array().unwrap().iter().enumerate() {
+        let m: Option<u32> = if mi == 0 { None } else { Some(mi as u32 - 1) };
+        for (ri, toks) in per_m.as_array().unwrap().iter().enumerate() {
+            let regret = [0u32, 3, 100][ri];
+            *evals += 1;
+            let r = catch_unwind(AssertUnwindSafe(|| {
+                let e = xor_float::double::encode(&fs, regret, m);
+                (xor_float::double::decode(&e), e)
+            }));
+            crate::util::take_panics();
+            let mask = match m {
+                Some(m) => u64::MAX - ((1u64 << (52 - m)) - 1),
+                None => u64::MAX,
+            };
+            match r {
+                Ok((Ok(dec), bytes)) => {
+                    if dec.len() != fs.len() || (0..fs.len()).any(|i| (dec[i].to_bits() ^ fs[i].to_bits()) & mask != 0) {
+                        out.push(json!({"oracle": "float-round-trip", "what": format!("{:?} mantissa {:?} regret {}: decodes to {:?}", fs.iter().map(|f| format!("{:016x}", f.to_bits())).collect::<Vec<_>>(), m, regret, dec.iter().map(|f| format!("{:016x}", f.to_bits())).collect::<Vec<_>>())}));
+                    }
+                    let want: Vec<(String, u64, u64, u64)> = toks
+                        .as_array()
+                        .unwrap()
+                        .iter()
+                        .map(|t| (t["t"].as_str().unwrap().to_string(), t["lz"].as_u64().unwrap(), t["sig"].as_u64().unwrap(), t["bits"].as_u64().unwrap()))
+                        .collect();
+                    if xor_tokens(&bytes) != Some(want) {
+                        *token_mismatch += 1;
+                    }
+                }
+                Ok((Err(e), _)) => out.push(json!({"oracle": "float-round-trip", "what": format!("mantissa {:?} regret {}: decode error {:?}", m, regret, e)})),
+                Err(p) => out.push(json!({"oracle": "float-round-trip", "what": format!("mantissa {:?} regret {}: panic {}", m, regret, panic_message(p))})),
+            }
+        }
+    }
+    out
+}
